@@ -82,7 +82,9 @@ def finish(pid, tier, seed, t0, mirhash, mir_s, N, cfg, step_res, hist_res):
         if a['unknown']:
             inconclusive.append(f'step {a["kind"]}::{a["op"]}: {a["unknown"]} solver timeouts/unknowns')
         for v in a['violations']:
-            if mine(v['tag']):
+            if v['tag'] == 'C10:model':
+                inconclusive.append(f'step {a["kind"]}::{a["op"]}: modelling limit reached ({v["desc"]}); args={v.get("args")}')
+            elif mine(v['tag']):
                 step_viol.append((a['kind'], a['op'], v))
     # ---- history violations of this property, replayed natively
     confirmed = []       # (key, tag, kind, op, history, native findings)
@@ -140,9 +142,6 @@ def finish(pid, tier, seed, t0, mirhash, mir_s, N, cfg, step_res, hist_res):
     # ---- replay artefacts
     rdir = os.path.join(common.VERIF, 'evidence', 'replay')
     os.makedirs(rdir, exist_ok=True)
-    for f in os.listdir(rdir):
-        if f.startswith(pid + '-'):
-            os.unlink(os.path.join(rdir, f))
     for i, c in enumerate(new_viol):
         path = os.path.join(rdir, f'{pid}-{i}.json')
         json.dump({'property': pid, 'tag': c['tag'], 'engine': 'native-replay', 'history': c['history'], 'native': c['native']}, open(path, 'w'), indent=1)
@@ -206,17 +205,11 @@ def finish(pid, tier, seed, t0, mirhash, mir_s, N, cfg, step_res, hist_res):
         'wall_s': round(time.time() - t0, 1),
         'violations': len(new_viol),
     }
-    common.write_evidence(pid, ev)
-    for l in lines:
-        print(l)
     for m in inconclusive[:12]:
         common.log(f'[{pid}] INCONCLUSIVE: {m}')
     common.log(f'[{pid}] paths={paths}+{hist_paths} obligations={obligations}+{hist_obl} confirmed={len(confirmed)} new={len(new_viol)} inconclusive={len(inconclusive)} wall={time.time()-t0:.0f}s')
-    if new_viol:
-        return 1
-    if inconclusive:
-        return 2
-    return 0
+    rc = 1 if new_viol else (2 if inconclusive else 0)
+    return {'rc': rc, 'lines': lines, 'ev': ev}
 
 
 def replay_file(path):
